@@ -105,9 +105,10 @@ def location(project, source, position, filename=None, debug=False):
 
     locs = []
     for r in result:
+        # builtins and compiled modules have no source position to go to
         if isinstance(r, list):
-            locs.append([unmarked(n) for n in r])
-        else:
+            locs.append([unmarked(n) for n in r if hasattr(n, 'declared_at')])
+        elif hasattr(r, 'declared_at'):
             locs.append(unmarked(r))
 
     return locs
